@@ -481,7 +481,68 @@ fn run_escsize(input: &Value) -> Case {
     let winches = input["winches"].as_u64().unwrap_or(1);
     let (mut resizes, mut others, mut polls) = (0u64, 0u64, 0u64);
     let mut kinds = vec![];
-    for _ in 0..winches {
+    let backlog = input["backlog"].as_bool().unwrap_or(false);
+    let mut render = json!(null);
+    if backlog {
+        // the render loop of terminal.rs with the peer stalled: more than 32 frames pile up, SIGWINCH arrives,
+        // the poll that handles it queues the size query and times out, run_render drops the pending frames.
+        // The peer resumes: the Resize event must still come.
+        let mut raised = 0u64;
+        let mut max_pending = 0usize;
+        let mut dropped = false;
+        let mut iters = 0u64;
+        let t0 = Instant::now();
+        let mut t_resume: Option<Instant> = None;
+        let peer_ref = &peer;
+        let r: Result<bool, surf_n_term::Error> = term.run_render(|t, e, _s| {
+            iters += 1;
+            if iters == 1 {
+                peer_ref.pause(true);
+                let _ = t.write_all(&vec![b'.'; 200_000]);
+            }
+            match e {
+                Some(TerminalEvent::Resize(_)) => {
+                    resizes += 1;
+                    return Ok(surf_n_term::TerminalAction::Quit(true));
+                }
+                Some(TerminalEvent::Size(_)) | None => {}
+                Some(_) => others += 1,
+            }
+            let p = t.frames_pending();
+            if !dropped && p < max_pending {
+                // run_render has just dropped the backlog: the peer resumes
+                dropped = true;
+                peer_ref.pause(false);
+                t_resume = Some(Instant::now());
+            }
+            max_pending = max_pending.max(p);
+            if !dropped && p >= 30 {
+                unsafe { libc::raise(libc::SIGWINCH) };
+                raised += 1;
+            }
+            // every iteration draws something, so every iteration queues a frame
+            let _ = write!(t, "frame {}", iters);
+            let over = match t_resume {
+                Some(tr) => tr.elapsed() > Duration::from_millis(1500),
+                None => t0.elapsed() > Duration::from_secs(8),
+            };
+            if over {
+                return Ok(surf_n_term::TerminalAction::Quit(false));
+            }
+            Ok(surf_n_term::TerminalAction::Sleep(Duration::from_millis(2)))
+        });
+        polls = iters;
+        if r.is_err() {
+            others += 100;
+        }
+        if !dropped || raised == 0 {
+            others += 1000; // the scenario did not get to the drop
+        }
+        render = json!({"iterations": iters, "sigwinch_raised_before_the_drop": raised, "max_frames_pending": max_pending,
+                        "frames_dropped": dropped, "result": format!("{:?}", r)});
+        peer.pause(false);
+    }
+    for _ in 0..(if backlog { 0 } else { winches }) {
         unsafe { libc::raise(libc::SIGWINCH) };
         // the answer needs a round trip through the peer thread
         let t0 = Instant::now();
@@ -518,11 +579,11 @@ fn run_escsize(input: &Value) -> Case {
         (Some(b), Some(a)) => termios_key(b) == termios_key(a),
         _ => false,
     };
-    j["impl"] = json!({"escape_size_mode": size_mode, "resize_events": resizes, "other_events": others, "polls": polls, "kinds": kinds, "restored": restored});
+    j["impl"] = json!({"escape_size_mode": size_mode, "resize_events": resizes, "other_events": others, "polls": polls, "kinds": kinds, "restored": restored, "render_loop": render});
     Case {
         coq: format!("CE {} {} {} {}", winches, resizes, others, cbool(size_mode && restored)),
         json: j,
-        tags: vec!["escsize".into()],
+        tags: vec![if backlog { "escsize_backlog".into() } else { "escsize".into() }],
         nontrivial: true,
     }
 }
@@ -654,6 +715,7 @@ pub fn generate(rng: &mut Rng, n: usize, _tier: &str) -> Vec<Value> {
     v.push(json!({"stress": {"threads": 4, "wakes": 300}}));
     v.push(json!({"blocked_wake": true}));
     v.push(json!({"escsize": true, "winches": 2}));
+    v.push(json!({"escsize": true, "backlog": true, "winches": 1}));
     // (corpus/C17: failed open, event flood at drop, a key arriving during a 1 MiB frame)
     // ... with the peer stalled only a wake request cuts the wait short, the key follows it
     v.push(json!({"acts": [["pause", true], ["write", 200000], ["in", "k"], ["wake", 1], ["poll", -1], ["poll", 20], ["pause", false], ["poll", 5]], "end": "drop"}));
